@@ -71,6 +71,7 @@ type c19In struct {
 	Ones                       int
 	Keys                       []string
 	KeySets                    [][]string
+	DupKeys                    []string // a sorted list with REPEATED keys, each occurrence in memory of its own
 	S                          string
 	Strs                       []string
 	Plains                     [][]byte
@@ -464,6 +465,7 @@ func c19Build(k int, al alloc) *c19In {
 	keys := keysets[k%len(keysets)]
 	in.Keys = al.strs(keys)
 	in.KeySets = [][]string{al.strs(keys[:1]), al.strs(keys[:2]), al.strs(keys[1:]), al.strs(keys)}
+	in.DupKeys = al.strs([]string{"", "", "a", "a", "ab", "b\x00", "b\x00", "b\x00", keys[len(keys)-1], keys[len(keys)-1]})
 	s := ss[k%len(ss)]
 	in.S = al.str(s)
 	plain := []string{"", "a", s, s[:len(s)/2], "stemSTEM", "stemSTEMs", keys[len(keys)-1], "\xff\xff"}
@@ -772,6 +774,13 @@ func c19Alphabet() []c19Call {
 			return bitword.BitWord[c19Widths[k%4]].FromStrs(in.Strs[:3]) // the slices themselves: re-read and poked after the pass
 		}, false},
 		{"sigbits.FirstDiffBits", func(in *c19In) int { return len(in.KeySets) }, func(in *c19In, k int) interface{} { return pr(sigbits.FirstDiffBits(in.KeySets[k])) }, true},
+		{"sigbits.FirstDiffBits/repeated-keys", func(*c19In) int { return 1 }, func(in *c19In, k int) interface{} { return pr(sigbits.FirstDiffBits(in.DupKeys)) }, false},
+		{"sigbits.New/repeated-keys", func(*c19In) int { return 3 }, func(in *c19In, k int) interface{} {
+			// equal neighbours are legal input for New and FirstDiffBits (purity is promised for every list)
+			sb := sigbits.New(in.DupKeys)
+			a, b := sb.CountPrefixes(0, int32(len(in.DupKeys)-2*k), int32(2+k))
+			return pr(a, b)
+		}, false},
 		{"sigbits.New+CountPrefixes", func(in *c19In) int { return len(in.Keys) - 1 }, func(in *c19In, k int) interface{} {
 			sb := sigbits.New(in.Keys)
 			a, b := sb.CountPrefixes(int32(k%2), int32(k+2), int32(1+k%9))
